@@ -123,26 +123,47 @@ def static_cases(ctx):
         times = []
         tick_now = [0]
 
+        seq = [0]
+
         def mk(k):
             def f(v, t):
-                reads[k].append((tick_now[0], v, t))
+                seq[0] += 1
+                reads[k].append((tick_now[0], v, t, seq[0]))
             return f
+        late = {}           # reader -> (schedule after this many ticks, extra delay in ticks)
         for k in range(nreaders):
-            d = r.choice([1, 1, 2, 3]) / tpb if tpb not in (24, 96) else r.choice([1, 2, 3, 6]) / tpb
-            tl.schedule({"action": mk(k), "args": {"v": static, "t": iso.PCurrentTime()}, "duration": d})
+            late[k] = (r.choice([0, 0, r.randint(1, hold_t * 2)]), r.choice([0, 0, r.randint(1, hold_t + 2)]))
         n = r.randint(hold_t * 2, hold_t * 8 + 5)
+
+        def sched_reader(k):
+            d = r.choice([1, 1, 2, 3]) / tpb if tpb not in (24, 96) else r.choice([1, 2, 3, 6]) / tpb
+            kw = {}
+            if late[k][1]:
+                kw["delay"] = late[k][1] / tpb      # a delayed reader shares the very same static pattern object
+            tl.schedule({"action": mk(k), "args": {"v": static, "t": iso.PCurrentTime()}, "duration": d}, **kw)
+        for k in range(nreaders):
+            if late[k][0] == 0:
+                sched_reader(k)
         for j in range(n):
             tick_now[0] = j
+            for k in range(nreaders):
+                if late[k][0] == j and j > 0:
+                    sched_reader(k)          # scheduled while the timeline is already running
             tl.tick()
         # spec (reference state machine): a read at tick j advances to the next element iff the current one has
         # been held for >= hold ticks since the read that selected it (first read selects element 0); hence the value
         # is held at least its duration however often it is read, elements are never skipped, and all readers of one
         # tick see the same value.  PCurrentTime = round(j / tpb, 5).
         bad = None
-        allreads = sorted((j, k, v, t) for k, rs in reads.items() for (j, v, t) in rs)
+        allreads = sorted((sq, j, k, v, t) for k, rs in reads.items() for (j, v, t, sq) in rs)     # in the order they were made
         idx, start = -1, None
-        for (j, k, v, t) in allreads:
-            if start is None or j - start >= hold_t:
+        for (sq, j, k, v, t) in allreads:
+            dyadic = tpb & (tpb - 1) == 0
+            if start is not None and j - start == hold_t and not dyadic and idx < len(vals) and v == vals[idx]:
+                # exactly on the boundary with tick times that are not exact in 5 decimals (k/24, k/96): the code's
+                # rounded float comparison may hold the value one read longer — "at least its duration" still holds
+                pass
+            elif start is None or j - start >= hold_t:
                 idx += 1
                 start = j
             exp = vals[idx] if idx < len(vals) else None
